@@ -56,3 +56,36 @@ void monitor_no_leak(Ctx &ctx, const char *prop, const char *where);
 
 // jwt_value_t helpers
 const char *verr_name(int e);
+
+// C++-safe equivalents of the jwt_set_GET_*/jwt_set_SET_* macros (the macros assign int to enum)
+static inline void jv_get(jwt_value_t *v, jwt_value_type_t t, const char *name)
+{
+	memset(v, 0, sizeof *v);
+	v->type = t;
+	v->name = name;
+	v->error = JWT_VALUE_ERR_NONE;
+}
+static inline void jv_set_int(jwt_value_t *v, const char *name, long x, int replace = 0)
+{
+	jv_get(v, JWT_VALUE_INT, name);
+	v->int_val = x;
+	v->replace = replace;
+}
+static inline void jv_set_str(jwt_value_t *v, const char *name, const char *x, int replace = 0)
+{
+	jv_get(v, JWT_VALUE_STR, name);
+	v->str_val = x;
+	v->replace = replace;
+}
+static inline void jv_set_bool(jwt_value_t *v, const char *name, int x, int replace = 0)
+{
+	jv_get(v, JWT_VALUE_BOOL, name);
+	v->bool_val = x;
+	v->replace = replace;
+}
+static inline void jv_set_json(jwt_value_t *v, const char *name, const char *x, int replace = 0)
+{
+	jv_get(v, JWT_VALUE_JSON, name);
+	v->json_val = (char *)x;
+	v->replace = replace;
+}
